@@ -982,11 +982,17 @@ func (w *World) opDrbg(step int) {
 	x := w.drawPrivScalar("ops", "drbg.x")
 	digest := w.genDigest32("ops")
 	reads := 1 + w.t.Choose("ops", "drbg.reads", 6)
-	RunDrbg(w.r, step, x, digest, reads)
+	RunDrbg(w.r, step, x, digest, reads, w.t.Choose("ops", "drbg.bufmode", 4))
 }
 
-// RunDrbg compares successive generator reads with the model.
-func RunDrbg(r *kernel.Run, step int, x *big.Int, digest []byte, reads int) {
+// DrbgBufModes names what the caller does with its read buffers.
+var DrbgBufModes = [...]string{"fresh buffers, left alone", "one buffer reused, left alone", "fresh buffers, zeroed after use", "one buffer reused, overwritten with 0xff between reads"}
+
+// RunDrbg compares successive generator reads with the model.  bufMode is
+// the caller-side fault: what the caller does with the buffers it reads into
+// (the generator is a stateful object whose state must not live in, or
+// depend on, caller memory).
+func RunDrbg(r *kernel.Run, step int, x *big.Int, digest []byte, reads, bufMode int) {
 	e, _ := ref.DigestToE(digest)
 	model := ref.NewRFC6979(x, digest)
 	var rd io.Reader
@@ -995,19 +1001,37 @@ func RunDrbg(r *kernel.Run, step int, x *big.Int, digest []byte, reads int) {
 		r.Violate("C09", "drbg-panic", "newDrbgRFC6979", step, "newDrbgRFC6979(x=%x,e=%x) panicked: %s", x, e, po.panicMsg)
 		return
 	}
+	reused := make([]byte, 32)
+	if bufMode >= 2 {
+		r.Fault("caller_overwrites_drbg_read_buffer")
+	}
 	for i := 1; i <= reads; i++ {
 		want := model.Next()
-		got := make([]byte, 32)
+		buf := reused
+		if bufMode == 0 || bufMode == 2 {
+			buf = make([]byte, 32)
+		}
 		var n int
 		var err error
-		po := protect(func() { n, err = rd.Read(got) })
-		r.Hist("%d drbg x=%x e=%x read#%d -> %x n=%d err=%v panic=%v", step, x, e, i, got, n, err, po.panicked)
+		po := protect(func() { n, err = rd.Read(buf) })
+		got := append([]byte(nil), buf...)
+		switch bufMode {
+		case 2:
+			for j := range buf {
+				buf[j] = 0
+			}
+		case 3:
+			for j := range buf {
+				buf[j] = 0xff
+			}
+		}
+		r.Hist("%d drbg x=%x e=%x [%s] read#%d -> %x n=%d err=%v panic=%v", step, x, e, DrbgBufModes[bufMode], i, got, n, err, po.panicked)
 		if po.panicked || err != nil || n != 32 {
 			r.Violate("C09", "drbg-read-failed", fmt.Sprintf("read#%d", i), step, "RFC 6979 generator read #%d: n=%d err=%v panic=%q", i, n, err, po.panicMsg)
 			return
 		}
 		if !bytes.Equal(got, want) {
-			r.Violate("C09", "drbg-candidate-mismatch", fmt.Sprintf("read#%d", i), step, "RFC 6979 generator (x=%x, e=%x) read #%d = %x, reference T_%d = %x", x, e, i, got, i, want)
+			r.Violate("C09", "drbg-candidate-mismatch", fmt.Sprintf("read#%d", i), step, "RFC 6979 generator (x=%x, e=%x; caller: %s) read #%d = %x, reference T_%d = %x", x, e, DrbgBufModes[bufMode], i, got, i, want)
 			return
 		}
 		if i > 1 {
